@@ -3,6 +3,7 @@ import PyElf.Core.Bundles
 import PyElf.Gen.Tables
 import PyElf.Gen.Structs
 import PyElf.Gen.Pure
+import PyElf.Spec.DwarfStructs
 import PyElf.Driver.C16
 import PyElf.Driver.Tie
 open Lean
@@ -24,19 +25,29 @@ def handleCon (req : Json) : Except String Json := do
   let name ← jStr req "name"
   let data ← jHex req "hex"
   let pos ← jNat req "pos"
+  let useSpec := (jBool req "spec").toOption.getD false
   let (con, forms) : Option Con × (String → Option Con) ←
     match kind, cfg with
     | "elf", [Json.bool le, cls, Json.str mc, Json.bool sol, Json.bool core] => do
         let cls ← jNatOf cls
+        if useSpec then
+          let b := Spec.elfStructs ⟨le, cls, mc, sol, core⟩
+          pure (b.get name, fun _ => none)
+        else
         match Gen.elfBundles.find? (·.1 == (⟨le, cls, mc, sol, core⟩ : ElfCfg)) with
         | some (_, b) => pure (b.get name, fun _ => none)
         | none => throw "no such elf bundle"
     | "dwarf", [Json.bool le, fmt, asz, ver] => do
         let fmt ← jNatOf fmt; let asz ← jNatOf asz; let ver ← jNatOf ver
+        if useSpec then
+          let b := Spec.dwarfStructs ⟨le, fmt, asz, ver⟩
+          pure (b.get name, b.form)
+        else
         match Gen.dwarfBundles.find? (·.1 == (⟨le, fmt, asz, ver⟩ : DwarfCfg)) with
         | some (_, b) => pure (b.get name, b.form)
         | none => throw "no such dwarf bundle"
     | "ehabi", [Json.bool le] =>
+        if useSpec then pure ((Spec.ehabiStructs le).get name, fun _ => none) else
         match Gen.ehabiBundles.find? (·.1 == le) with
         | some (_, b) => pure (b.get name, fun _ => none)
         | none => throw "no such ehabi bundle"
